@@ -1342,3 +1342,222 @@ pa_inst! {
     attr_password_algorithms_n3_p0_p0_p0 = password_algorithms_rt3(0, 0, 0);
     attr_password_algorithms_n3_p3_p1_p2 = password_algorithms_rt3(3, 1, 2);
 }
+
+// --------------------------------------------------------------------------------------------
+// PASSWORD-ALGORITHMS list walker (C01 / C03): the real PasswordAlgorithms::decode loop and the real
+// PasswordAlgorithm::decode run on an arbitrary value of up to N bytes; the two heap-building
+// steps (Algorithm::new -> Arc<Vec<u8>>, PasswordAlgorithms::add -> Arc<Vec<..>>) are replaced by
+// recording stubs, so that the offsets, lengths and bytes the decoder hands over are observed
+// without the nested Arc/Vec storage (which no whole-list query fits, DESIGN 0.4).
+// Reference: the layout the encoder produces (RFC 8489 14.11): entry k starts on a 32-bit boundary,
+// is 4 + plen bytes long, the last entry ends the value.
+// --------------------------------------------------------------------------------------------
+#[derive(Clone, Copy)]
+struct PaRec {
+    id: u16,
+    plen: usize,
+    some: bool,
+    at_j: u8,
+}
+const PA_MAX: usize = 8;
+static mut PA_REC: [PaRec; PA_MAX] = [PaRec { id: 0, plen: 0, some: false, at_j: 0 }; PA_MAX];
+static mut PA_N: usize = 0;
+static mut PA_J: usize = 0;
+static mut PA_LAST: PaRec = PaRec { id: 0, plen: 0, some: false, at_j: 0 };
+fn alg_new_rec<'a, T: Into<Option<&'a [u8]>>>(algorithm: AlgorithmId, parameters: T) -> Algorithm {
+    let p: Option<&'a [u8]> = parameters.into();
+    let mut r = PaRec { id: u16::from(algorithm), plen: 0, some: false, at_j: 0 };
+    if let Some(s) = p {
+        r.some = true;
+        r.plen = s.len();
+        let j = unsafe { PA_J };
+        if j < s.len() {
+            r.at_j = s[j];
+        }
+    }
+    unsafe { PA_LAST = r };
+    Algorithm::from(algorithm)
+}
+fn pa_add_rec(_this: &mut crate::attributes::stun::PasswordAlgorithms, a: crate::attributes::stun::PasswordAlgorithm) {
+    unsafe {
+        let r = PA_LAST;
+        assert!(u16::from(a.algorithm()) == r.id);
+        if PA_N < PA_MAX {
+            PA_REC[PA_N] = r;
+        }
+        PA_N += 1;
+    }
+    std::mem::forget(a);
+}
+fn pa_walk<const N: usize>() {
+    use crate::attributes::stun::PasswordAlgorithms;
+    let buf: [u8; N] = kani::any();
+    let l: usize = kani::any();
+    kani::assume(l <= N);
+    let msg = any_header();
+    let j: usize = kani::any();
+    unsafe {
+        PA_N = 0;
+        PA_J = j;
+    }
+    let r = PasswordAlgorithms::decode(AttributeDecoderContext::new(None, &msg, &buf[..l]));
+    // reference walk over the encoder's layout
+    let mut off = 0usize;
+    let mut k = 0usize;
+    let mut well_formed = true;
+    let mut same = true;
+    while off < l {
+        if off + 4 > l {
+            well_formed = false;
+            break;
+        }
+        let id = ((buf[off] as u16) << 8) | buf[off + 1] as u16;
+        let pl = (((buf[off + 2] as u16) << 8) | buf[off + 3] as u16) as usize;
+        if off + 4 + pl > l {
+            well_formed = false;
+            break;
+        }
+        let rec = unsafe { PA_REC[k] };
+        if crate::verif_cfg::NATIVE_REPLAY {
+            // native replay of a counterexample (no stubs): the entries are read from the real list
+            if let Ok((a, _)) = &r {
+                match a.password_algorithms().get(k) {
+                    Some(x) => {
+                        let p = x.parameters();
+                        if u16::from(x.algorithm()) != id || p.map_or(0, |p| p.len()) != pl || p.is_some() != (pl > 0) || (j < pl && p.map_or(0, |p| p[j]) != buf[off + 4 + j]) {
+                            same = false;
+                        }
+                    }
+                    None => same = false,
+                }
+            }
+        } else if k >= unsafe { PA_N } || rec.id != id || rec.plen != pl || rec.some != (pl > 0) || (j < pl && rec.at_j != buf[off + 4 + j]) {
+            same = false;
+        }
+        k += 1;
+        let end = off + 4 + pl;
+        if end == l {
+            off = end;
+        } else {
+            off = (end + 3) & !3usize;
+            if off + 4 > l {
+                well_formed = false;
+                break;
+            }
+        }
+    }
+    match r {
+        Ok((a, size)) => {
+            assert!(size == l, "C01: the list decoder consumes the whole value");
+            assert!(well_formed, "C01/C03: a value that is not a list of complete entries is not accepted");
+            let n = if crate::verif_cfg::NATIVE_REPLAY { a.password_algorithms().len() } else { unsafe { PA_N } };
+            assert!(n == k, "C01: as many entries as the value holds");
+            assert!(same, "C01: every entry read at its 32-bit aligned offset with its own length and bytes");
+            kani::cover!(k == 3, "three entries");
+            kani::cover!(k >= 2 && l % 4 != 0, "unaligned last entry");
+            std::mem::forget(a);
+        }
+        Err(e) => {
+            assert!(!well_formed, "C01: a well-formed list (the encoder's layout) decodes");
+            kani::cover!(k >= 2, "error after two entries");
+            std::mem::forget(e);
+        }
+    }
+}
+macro_rules! pa_walk_inst {
+    ($($name:ident = $n:expr, $u:expr;)*) => {$(
+        #[kani::proof]
+        #[kani::unwind($u)]
+        #[kani::stub(alloc::fmt::format, nofmt)]
+        #[kani::stub(crate::algorithm::Algorithm::new, alg_new_rec)]
+        #[kani::stub(crate::attributes::stun::password_algorithms::PasswordAlgorithms::add, pa_add_rec)]
+        fn $name() { pa_walk::<$n>(); }
+    )*};
+}
+pa_walk_inst! {
+    c01_pa_walk_n12 = 12, 5;
+    c01_pa_walk_n16 = 16, 6;
+    c01_pa_walk_n24 = 24, 8;
+}
+
+// Encode side of the list: the real PasswordAlgorithms::encode / PasswordAlgorithm::encode loop over a
+// list of N entries whose parameters are supplied by a stub of Algorithm::parameters (virtual
+// parameters: per entry a symbolic length 0..=4 and symbolic bytes), so that the list itself holds no
+// nested Arc<Vec<u8>>.  The written layout is compared with the RFC 8489 14.11 layout the walker above
+// takes as its reference.
+static mut VP_BASE: usize = 0;
+static mut VP_LEN: [usize; 4] = [0; 4];
+static mut VP_BYTES: [[u8; 4]; 4] = [[0; 4]; 4];
+fn alg_params_virtual(this: &Algorithm) -> Option<&[u8]> {
+    unsafe {
+        let idx = (this as *const Algorithm as usize - VP_BASE) / std::mem::size_of::<crate::attributes::stun::PasswordAlgorithm>();
+        assert!(idx < 4);
+        let l = VP_LEN[idx];
+        if l == 0 {
+            None
+        } else {
+            Some(&VP_BYTES[idx][..l])
+        }
+    }
+}
+fn pa_layout<const N: usize>() {
+    use crate::attributes::stun::{PasswordAlgorithm, PasswordAlgorithms};
+    let msg = any_header();
+    let ids: [u16; 4] = kani::any();
+    let lens: [usize; 4] = kani::any();
+    let bytes: [[u8; 4]; 4] = kani::any();
+    kani::assume(lens[0] <= 4 && lens[1] <= 4 && lens[2] <= 4 && lens[3] <= 4);
+    let mut v: Vec<PasswordAlgorithm> = Vec::with_capacity(N);
+    let mut i = 0;
+    while i < N {
+        v.push(PasswordAlgorithm::new(Algorithm::from(AlgorithmId::from(ids[i]))));
+        i += 1;
+    }
+    unsafe {
+        VP_BASE = v.as_ptr() as usize;
+        VP_LEN = lens;
+        VP_BYTES = bytes;
+    }
+    let a = PasswordAlgorithms::from(v);
+    let pad = |n: usize| (4 - (n & 3)) & 3;
+    if let Some(e) = enc(&a, &msg) {
+        let mut off = 0usize;
+        let mut k = 0usize;
+        let j: usize = kani::any();
+        while k < N {
+            assert!(e.out[off] == (ids[k] >> 8) as u8 && e.out[off + 1] == ids[k] as u8, "C02: algorithm number, big endian");
+            assert!(e.out[off + 2] == 0 && e.out[off + 3] == lens[k] as u8, "C02: parameter length, big endian");
+            if j < lens[k] {
+                assert!(e.out[off + 4 + j] == bytes[k][j], "C02: parameter bytes");
+            }
+            let end = off + 4 + lens[k];
+            if k + 1 < N {
+                if j < pad(lens[k]) {
+                    assert!(e.out[end + j] == 0, "C02: inner padding is zero");
+                }
+                off = end + pad(lens[k]);
+            } else {
+                off = end;
+            }
+            k += 1;
+        }
+        assert!(e.size == off, "C02: every entry but the last is padded to 32 bits; the last ends the value");
+        kani::cover!(N >= 3 && lens[0] == 1 && lens[1] == 2, "padded inner entries");
+    }
+    std::mem::forget(a);
+}
+macro_rules! pa_layout_inst {
+    ($($name:ident = $n:expr;)*) => {$(
+        #[kani::proof]
+        #[kani::unwind(6)]
+        #[kani::stub(alloc::fmt::format, nofmt)]
+        #[kani::stub(crate::algorithm::Algorithm::parameters, alg_params_virtual)]
+        fn $name() { pa_layout::<$n>(); }
+    )*};
+}
+pa_layout_inst! {
+    c01_pa_layout_n1 = 1;
+    c01_pa_layout_n2 = 2;
+    c01_pa_layout_n3 = 3;
+    c01_pa_layout_n4 = 4;
+}
